@@ -154,5 +154,6 @@ def shrink_candidates(case):
 
 def execute(case):
     from sim import twin
-    res = twin.run_twin(case, compare_sections=('params', 'rg', 'flags', 'grads'), probe_forward_first=True)
+    res = twin.run_twin(case, compare_sections=('params', 'rg', 'flags', 'grads'), probe_forward_first=True,
+                        construction_layout='fail')
     return res
